@@ -12,7 +12,7 @@ use serde_avro_fast::schema::SchemaMut;
 use serde_avro_fast::Schema;
 use std::sync::OnceLock;
 
-pub const STEPS: [&str; 12] = ["start", "build the case", "parse", "Debug of SchemaMut", "serde_json::to_string(&SchemaMut)", "canonical_form_rabin_fingerprint", "freeze", "Debug/json/fingerprint of Schema", "deserialize with the frozen schema", "serialize with the frozen schema", "drop", "harness self-test"];
+pub const STEPS: [&str; 14] = ["start", "build the case", "parse", "Debug of SchemaMut", "serde_json::to_string(&SchemaMut)", "canonical_form_rabin_fingerprint", "freeze", "Debug/json/fingerprint of Schema", "deserialize with the frozen schema", "serialize with the frozen schema", "drop", "harness self-test", "Name::name / namespace / fully_qualified_name", "Schema::try_from(SchemaMut)"];
 pub const ST_BUILD: u8 = 1;
 pub const ST_PARSE: u8 = 2;
 pub const ST_DEBUG: u8 = 3;
@@ -24,6 +24,8 @@ pub const ST_DE: u8 = 8;
 pub const ST_SER: u8 = 9;
 pub const ST_DROP: u8 = 10;
 pub const ST_SELF: u8 = 11;
+pub const ST_NAME: u8 = 12;
+pub const ST_TRYFROM: u8 = 13;
 
 pub const FLAG_NONTRIVIAL: u8 = 1;
 pub const FLAG_UNNAMED_CYCLE: u8 = 2;
@@ -45,6 +47,7 @@ pub enum Fam {
 	Nodes(usize),
 	Decor,
 	Decor2,
+	Names,
 	Shapes,
 	NearMiss,
 	Prefix,
@@ -71,6 +74,7 @@ impl Fam {
 			Fam::Nodes(l) => format!("nodes-{l}"),
 			Fam::Decor => "decor".into(),
 			Fam::Decor2 => "decor2".into(),
+			Fam::Names => "names".into(),
 			Fam::Shapes => "shapes".into(),
 			Fam::NearMiss => "nearmiss".into(),
 			Fam::Prefix => "prefix".into(),
@@ -90,7 +94,7 @@ impl Fam {
 		if let Some(l) = s.strip_prefix("nodes-") {
 			return l.parse().ok().map(Fam::Nodes);
 		}
-		[Fam::SelfTest, Fam::Decor, Fam::Decor2, Fam::Shapes, Fam::NearMiss, Fam::Prefix, Fam::OddValues, Fam::Nest, Fam::DiamondNest, Fam::DiamondFwd, Fam::DiamondBuilder, Fam::RefChainText, Fam::RefChainBuilder, Fam::ArrayChainBuilder, Fam::WideText, Fam::WideBuilder]
+		[Fam::SelfTest, Fam::Decor, Fam::Decor2, Fam::Names, Fam::Shapes, Fam::NearMiss, Fam::Prefix, Fam::OddValues, Fam::Nest, Fam::DiamondNest, Fam::DiamondFwd, Fam::DiamondBuilder, Fam::RefChainText, Fam::RefChainBuilder, Fam::ArrayChainBuilder, Fam::WideText, Fam::WideBuilder]
 			.into_iter()
 			.find(|f| f.name() == s)
 	}
@@ -116,7 +120,7 @@ impl Fam {
 		if self.is_text() {
 			return ["parse-mut (text.parse::<SchemaMut>(), then Debug, to_string, fingerprint, freeze, use)", "parse-schema (text.parse::<Schema>(), then use)"][op];
 		}
-		["debug (format!(\"{:?}\", SchemaMut))", "json (serde_json::to_string(&SchemaMut))", "fingerprint (SchemaMut::canonical_form_rabin_fingerprint)", "freeze (SchemaMut::freeze, then use of the Schema)"][op]
+		["debug (format!(\"{:?}\", SchemaMut))", "json (serde_json::to_string(&SchemaMut))", "fingerprint (SchemaMut::canonical_form_rabin_fingerprint)", "freeze (SchemaMut::freeze and Schema::try_from, then use of each Schema)"][op]
 	}
 	/// per-case CPU horizon
 	pub fn horizon_ms(self) -> u64 {
@@ -166,6 +170,7 @@ impl Ctx {
 		let decor = match fam {
 			Fam::Decor => cn::decorated(),
 			Fam::Decor2 => cn::decorated_small(),
+			Fam::Names => cn::named_nodes(),
 			_ => vec![],
 		};
 		let shapes1 = if fam == Fam::Shapes { ct::shapes1() } else { vec![] };
@@ -179,6 +184,7 @@ impl Ctx {
 			Fam::Nodes(l) => (self.sigma.len() as u64).pow(l as u32),
 			Fam::Decor => 4 * self.decor.len() as u64,
 			Fam::Decor2 => 2 * (self.decor.len() as u64).pow(2),
+			Fam::Names => (cn::NAME_CONTEXTS.len() * self.decor.len()) as u64,
 			Fam::Shapes => {
 				let s = self.shapes1.len() as u64;
 				s + w * s + if self.thorough { w * w * s } else { 0 }
@@ -222,6 +228,10 @@ impl Ctx {
 			Fam::Decor => {
 				let d = self.decor.len() as u64;
 				nodes(cn::in_context((idx / d) as usize, &[self.decor[(idx % d) as usize].clone()]))
+			}
+			Fam::Names => {
+				let d = self.decor.len() as u64;
+				nodes(cn::in_context(cn::NAME_CONTEXTS[(idx / d) as usize], &[self.decor[(idx % d) as usize].clone()]))
 			}
 			Fam::Decor2 => {
 				let d = self.decor.len() as u64;
@@ -419,6 +429,39 @@ fn presentations() -> &'static Vec<Pres> {
 pub const SINK_CAP: usize = 64 * 1024;
 pub const VERDICT_RUNAWAY: &str = "HARNESS-VERDICT runaway-output: ";
 pub const VERDICT_DANGLING: &str = "HARNESS-VERDICT dangling-key-after-parse: ";
+pub const VERDICT_NAME: &str = "HARNESS-VERDICT name-accessors-inconsistent: ";
+pub const VERDICT_ROUTES: &str = "HARNESS-VERDICT freeze-routes-differ: ";
+
+/// The accessors of every `Name` in the graph are total and consistent with each other:
+/// `namespace() + "." + name() == fully_qualified_name()` when there is a namespace,
+/// `name() == fully_qualified_name()` otherwise.
+fn check_names(m: &SchemaMut) {
+	for (i, n) in m.nodes().iter().enumerate() {
+		if let Some(name) = n.type_.name() {
+			let (fq, ns, nm) = (name.fully_qualified_name(), name.namespace(), name.name());
+			let rebuilt = match ns {
+				Some(ns) => format!("{ns}.{nm}"),
+				None => nm.to_owned(),
+			};
+			if rebuilt != fq {
+				panic!("{VERDICT_NAME}node #{i}: fully_qualified_name() = {fq:?} but namespace() = {ns:?} and name() = {nm:?}");
+			}
+		}
+	}
+}
+
+/// A recursive typed target: every field name the builder graphs use, each an optional box of the same type.
+#[derive(serde::Deserialize, Default)]
+#[serde(default)]
+#[allow(dead_code)]
+struct RecTarget {
+	f: Option<Box<RecTarget>>,
+	g: Option<Box<RecTarget>>,
+	a: Option<Box<RecTarget>>,
+	b: Option<Box<RecTarget>>,
+	next: Option<Box<RecTarget>>,
+	v: Option<Box<RecTarget>>,
+}
 
 /// A `SchemaMut` that `str::parse` returned as Ok must be a closed graph: every key it holds
 /// (array items, map values, union variants, record field types) is an index below
@@ -503,6 +546,14 @@ fn panic_out<T>(o: &Out<T>, what: &str) {
 /// Serialize and deserialize with a frozen schema; returns detail bits. Any panic of the
 /// crate is re-raised (with what was being done) and caught by the runner.
 pub fn use_schema(schema: &Schema, step: &StepCell) -> u8 {
+	use_schema_with(schema, step, true)
+}
+
+/// `full = false`: the reduced phase used for the second of two schemas frozen from one graph
+/// with identical json() and fingerprint — every hostile input is still decoded (skipped with
+/// IgnoredAny, observed with deserialize_any, into the recursive typed target), the other hints,
+/// the reader runs and the serializations are not repeated.
+pub fn use_schema_with(schema: &Schema, step: &StepCell, full: bool) -> u8 {
 	let mut d = 0u8;
 	step.set(ST_SDEBUG);
 	let dbg = subj::guarded(|| Ok(format!("{:?}", schema).len() + schema.json().len() + schema.rabin_fingerprint().len()));
@@ -510,10 +561,15 @@ pub fn use_schema(schema: &Schema, step: &StepCell) -> u8 {
 	step.set(ST_DE);
 	let limits = Limits { allowed_depth: None, max_seq_size: Some(1000), max_alloc_size: Some(64) };
 	let mut de = |bytes: &[u8], what: &str| {
-		for h in hints() {
+		for h in hints().iter().take(if full { usize::MAX } else { 2 }) {
 			let o = subj::de_slice(schema, bytes, h, &limits);
 			panic_out(&o, &format!("deserializing {what} from a slice with hint {h:?} panicked"));
 			d |= if o.is_ok() { D_DE_OK } else { D_DE_ERR };
+		}
+		let o = subj::guarded(|| serde_avro_fast::from_datum_slice::<RecTarget>(bytes, schema).map(|_| ()).map_err(|e| e.to_string()));
+		panic_out(&o, &format!("deserializing {what} into a recursive typed target (struct of Option<Box<Self>> fields) panicked"));
+		if !full {
+			return;
 		}
 		let (o, _) = subj::de_reader(schema, ChunkedBufRead::uniform(bytes, 3), &Hint::Any, &limits);
 		panic_out(&o, &format!("deserializing {what} from a reader (3-byte refills, max_alloc_size 64) panicked"));
@@ -523,6 +579,9 @@ pub fn use_schema(schema: &Schema, step: &StepCell) -> u8 {
 	for (i, h) in hostile().iter().enumerate() {
 		let what = if h.len() > 32 { format!("hostile input #{i} ({} bytes beginning {})", h.len(), crate::report::hex(&h[..8])) } else { format!("hostile input #{i} [{}]", crate::report::hex(h)) };
 		de(h, &what);
+	}
+	if !full {
+		return d;
 	}
 	step.set(ST_SER);
 	let mut sd = 0u8;
@@ -602,6 +661,8 @@ pub fn run_op(ctx: &Ctx, idx: u64, op: usize, step: &StepCell, meta: &mut dyn Fn
 			let m = SchemaMut::from_nodes(cn::build(&nodes));
 			match op {
 				0 => {
+					step.set(ST_NAME);
+					check_names(&m);
 					step.set(ST_DEBUG);
 					let n = format!("{m:?}").len();
 					step.set(ST_DROP);
@@ -620,16 +681,35 @@ pub fn run_op(ctx: &Ctx, idx: u64, op: usize, step: &StepCell, meta: &mut dyn Fn
 					out(r.is_ok(), 0)
 				}
 				_ => {
+					// both public routes from a graph to a Schema: SchemaMut::freeze() and
+					// Schema::try_from(SchemaMut) (what `.try_into()` and the derive crate use)
+					let m2 = m.clone();
 					step.set(ST_FREEZE);
-					match m.freeze() {
-						Ok(s) => {
-							let d = use_schema(&s, step);
-							step.set(ST_DROP);
-							drop(s);
-							out(true, d | D_FREEZE_OK)
-						}
-						Err(_) => out(false, 0),
+					let r1 = m.freeze();
+					let mut d = 0u8;
+					if let Ok(s) = &r1 {
+						d |= use_schema(s, step) | D_FREEZE_OK;
 					}
+					step.set(ST_TRYFROM);
+					let r2 = Schema::try_from(m2);
+					if let Ok(s) = &r2 {
+						let same = matches!(&r1, Ok(s1) if s1.json() == s.json() && s1.rabin_fingerprint() == s.rabin_fingerprint());
+						d |= use_schema_with(s, step, !same) | D_FREEZE_OK;
+					}
+					step.set(ST_TRYFROM);
+					let ok = match (&r1, &r2) {
+						(Ok(s1), Ok(s2)) => {
+							if s1.json() != s2.json() || s1.rabin_fingerprint() != s2.rabin_fingerprint() {
+								panic!("{VERDICT_ROUTES}freeze() and Schema::try_from() both return Ok but json() is {:?} vs {:?}, fingerprint {:?} vs {:?}", s1.json(), s2.json(), s1.rabin_fingerprint(), s2.rabin_fingerprint());
+							}
+							true
+						}
+						(Err(_), Err(_)) => false,
+						(a, b) => panic!("{VERDICT_ROUTES}SchemaMut::freeze() returned {} but Schema::try_from() of the same graph returned {}", if a.is_ok() { "Ok" } else { "Err" }, if b.is_ok() { "Ok" } else { "Err" }),
+					};
+					step.set(ST_DROP);
+					drop((r1, r2));
+					out(ok, d)
 				}
 			}
 		}
